@@ -37,9 +37,9 @@ def gen_case(rng, tier):
     npairs = rng.choice([1, 1, 1, 2, 3])
     pairs = []
     for _ in range(npairs):
-        nd = rng.choice([1, 2, 2, 3])
+        nd = rng.choice([1, 2, 2, 3, 0])
         shape = [rng.randint(1, 9 if tier == "quick" else 16) for _ in range(nd)]
-        kind = rng.choice(["plain", "plain", "elemwise", "sliding", "sliding", "transpose"])
+        kind = rng.choice(["plain", "plain", "elemwise", "sliding", "sliding", "transpose"]) if nd else rng.choice(["plain", "elemwise"])
         chunks = [list(c) for c in rand_chunks(rng, shape)]
         p = {"shape": shape, "chunks": chunks, "kind": kind}
         if kind == "sliding":
@@ -49,7 +49,15 @@ def gen_case(rng, tier):
         offsets = [rng.randint(0, 3) for _ in range(nd)]
         extra = [rng.randint(0, 3) for _ in range(nd)]
         p["offsets"], p["extra"] = offsets, extra
-        p["region"] = rng.choice(["offset", "offset", "none", "full_slices"])
+        p["region"] = rng.choice(["offset", "offset", "none", "full_slices", "int_axes"]) if nd else rng.choice(["none", "int_axes", "int_axes"])
+        if p["region"] == "int_axes":
+            # the target has extra axes addressed by integers in the region (a 0-d source lands on one cell)
+            k = rng.randint(1, 2)
+            ins = []
+            for _k in range(k):
+                size = rng.randint(1, 4)
+                ins.append([rng.randint(0, nd + _k), size, rng.randrange(size)])
+            p["int_axes"] = ins
         pairs.append(p)
     lock = rng.choice(["true", "false", "lock"])
     compute = rng.random() < 0.75
@@ -98,8 +106,17 @@ def judge(case, ctx):
                 tshape = e.shape
                 region = tuple(slice(None) for _ in range(nd))
             else:
-                tshape = tuple(s + o + x_ for s, o, x_ in zip(e.shape, offs, extra))
-                region = tuple(slice(o, o + s) for o, s in zip(offs, e.shape))
+                tshape = [s + o + x_ for s, o, x_ in zip(e.shape, offs, extra)]
+                region = [slice(o, o + s) for o, s in zip(offs, e.shape)]
+                if p["region"] == "int_axes":
+                    for pos, size, at in p["int_axes"]:
+                        pos = min(pos, len(tshape))
+                        tshape.insert(pos, size)
+                        region.insert(pos, at)
+                    ctx.count("integer_regions")
+                    if nd == 0:
+                        ctx.count("zero_d_sources_with_region")
+                tshape, region = tuple(tshape), tuple(region)
             t = rec.RecTarget(tshape, "f8", lock=lockobj)
             sources.append(x)
             expected.append(e)
@@ -207,9 +224,17 @@ def npy_roundtrip(rng, ctx):
 
     nd = rng.choice([1, 2, 3])
     shape = tuple(rng.randint(1, 7) for _ in range(nd))
-    a = (np.arange(int(np.prod(shape))) * 1.5).reshape(shape)
-    x = da.from_array(a, chunks=rand_chunks(rng, shape))
     axis = rng.randrange(nd)
+    many = rng.random() < 0.4
+    if many:
+        # more than ten blocks along the stacking axis (file names 10.npy, 11.npy sort before 2.npy as text)
+        shape = tuple(rng.randint(11, 30) if i == axis else min(s, 3) for i, s in enumerate(shape))
+    a = (np.arange(int(np.prod(shape))) * 1.5).reshape(shape)
+    chunks = list(rand_chunks(rng, shape))
+    if many:
+        chunks[axis] = tuple(rng.choice([(1,) * shape[axis], (1, 2) * (shape[axis] // 3) + (1,) * (shape[axis] % 3)]))
+        ctx.count("npy_stacks_with_over_ten_blocks")
+    x = da.from_array(a, chunks=tuple(chunks))
     root = os.path.join(VERIF, "scratch")
     os.makedirs(root, exist_ok=True)
     d = tempfile.mkdtemp(prefix="npy_", dir=root)
